@@ -512,6 +512,11 @@ type Net struct {
 	nextPort   int
 	onConn     func(dialer *Conn, listener *Conn)
 	blocked    func(from, to string) bool
+
+	udp       map[string]*PacketConn
+	udpCfg    UDPConfig
+	udpFilter func(from, to *net.UDPAddr, data []byte) UDPVerdict
+	udpCount  map[string]int
 }
 
 func New(tape *simrt.Stream, cfg Config) *Net {
@@ -533,6 +538,22 @@ func (n *Net) FaultsFired() map[string]int {
 	out := map[string]int{}
 	for k, v := range n.faultCount {
 		out[k.String()] = v
+	}
+	for k, v := range n.udpCount {
+		if k != "udp-sent" && k != "udp-delivered" {
+			out[k] = v
+		}
+	}
+	return out
+}
+
+// UDPCounts: datagrams sent / delivered / lost / duplicated / delayed / partitioned / filtered / no-socket.
+func (n *Net) UDPCounts() map[string]int {
+	n.mu.Lock()
+	defer n.mu.Unlock()
+	out := map[string]int{}
+	for k, v := range n.udpCount {
+		out[k] = v
 	}
 	return out
 }
